@@ -26,7 +26,7 @@ VARIABLES rel,    \* Actors -> BOOLEAN : released and not yet parked again (runn
 gvars == <<vars, rel, pend, hist, nprobe>>
 
 IdlePCs == {"c.idle0", "c.idle1", "s.idle", "s.idle2", "env", "x.idle"}
-ParkPCs == {"u.fetch", "up.fechk", "g.hook", "h.hook", "h.werr", "td.close", "co.chk", "er.chk", "hb.chk", "g.werr", "u.begin", "g.begin", "g.found", "dt.begin", "sh.begin", "u.flushing"}
+ParkPCs == {"we.in", "u.fetch", "up.fechk", "g.hook", "h.hook", "h.werr", "td.close", "co.chk", "er.chk", "hb.chk", "g.werr", "u.begin", "g.begin", "g.found", "dt.begin", "sh.begin", "u.flushing"}
 \* (with FixInit the trig.init.found point sits inside r.mu: the start goroutine then parks holding the lock and every
 \*  release of an actor that needs r.mu meanwhile is a probe)
 ParksAt(a, pc) == pc \in IdlePCs \/ pc \in ParkPCs \/ (pc = "un.begin" /\ a[1] # "c")
